@@ -95,3 +95,24 @@ Definition map_order {B : Type} (bl bl0 : list (nat * list B)) : Prop :=
     [enum.s1.status], depends_on ...) is qualified iff another schema of the realm holds an object
     of the same type and name -- the pass-2 condition only. *)
 Definition ObjectRef_qualified (specs : list qobj) (o : qobj) : bool := conflictb specs o.
+
+(** specutil.QualifyReferences (spec.go), after QualifyObjects on d.Tables:
+      byRef[cref{s: t.Qualifier, t: t.Name}] = t          // error "duplicate references" if taken
+      for every foreign key: r, ok := byRef[{RefTable.Schema.Name, RefTable.Name}]; ok && r.Qualifier != ""
+                               -> table.<qualifier>.<name>.column.c
+                             else r, ok := byRef[{"", RefTable.Name}]; ok && r.Qualifier == ""
+                               -> table.<name>.column.c
+                             else error "missing reference"
+    [res] is the result of QualifyObjects (object, Qualifier). *)
+Inductive qref := RefQualified (q name : nat) | RefPlain (name : nat) | RefMissing.
+
+Definition opt_nat_eqb (a b : option nat) : bool :=
+  match a, b with Some x, Some y => Nat.eqb x y | None, None => true | _, _ => false end.
+Definition byRef_has (res : list (qobj * option nat)) (q : option nat) (name : nat) : bool :=
+  existsb (fun e => Nat.eqb (q_label (fst e)) name && opt_nat_eqb (snd e) q) res.
+Definition QualifyReferences_ref (res : list (qobj * option nat)) (target : qobj) : qref :=
+  if byRef_has res (Some (q_schema target)) (q_label target) then RefQualified (q_schema target) (q_label target)
+  else if byRef_has res None (q_label target) then RefPlain (q_label target)
+  else RefMissing.
+(* the key of a table spec in byRef *)
+Definition byRef_key (e : qobj * option nat) : option nat * nat := (snd e, q_label (fst e)).
